@@ -25,6 +25,9 @@ FAULTS = ['len+1', 'len-1', 'len0', 'flag-optional', 'flag-transitive', 'value',
           'mp-nexthop-length']
 
 
+TOLERATED = {}
+
+
 def raw_tlv(flags, code, declared, value, ext):
     if ext:
         return bytes([flags | 0x10, code]) + struct.pack('!H', declared) + bytes(value)
@@ -51,6 +54,12 @@ def bad_values(rng, code, a, sess):
             out.append([0, 3] + v[2:])  # a family that was not negotiated
             out.append(v[: 4 + v[3] + 1])  # no NLRI at all
             out.append(v[: 4 + v[3] + 1] + ([0, 0, 0, 1] if sess.addpath else []) + [200, 1, 2])  # prefix length beyond the family
+            if v[2] == 128 and v[3] >= 8:
+                # RFC 4364 4.3.2 / RFC 4659 3.2.1.1: the Route Distinguisher in front of the next hop is zero
+                for k in (0, 7):
+                    b = list(v)
+                    b[4 + k] = 1 + rng.getrandbits(7)
+                    out.append(b)
         return out
     if code == 15:
         return [[0, 3] + v[2:], v[:3] + ([0, 0, 0, 1] if sess.addpath else []) + [200, 1, 2]]
@@ -90,12 +99,16 @@ def corrupt(rng, desc, code, fault, sess):
         if code != 14 or len(v) < 5:
             return []
         out = []
-        filler = [0x20, 0x01, 0x0D, 0xB8] + [0] * 11 + [1] + [0xFE, 0x80] + [0] * 13 + [1] + [9]
+        glob, ll = [0x20, 0x01, 0x0D, 0xB8] + [0] * 11 + [1], [0xFE, 0x80] + [0] * 13 + [1]
+        filler = glob + ll + [9]
         rd = [0] * 8 if v[2] == 128 else []
-        for ln in range(0, 34):
+        # mpls-vpn: up to 49 so that RFC 4659's 48 (RD + global + RD + link-local), the 40 octets ExaBGP used to
+        # write (RD + global + link-local: tolerated on receipt, see judge) and their neighbours are all tried
+        top = 50 if v[2] == 128 else 34
+        for ln in range(0, top):
             if ln == v[3]:
                 continue
-            nh = (rd + filler)[:ln]
+            nh = (rd + filler)[:ln] if ln <= 40 else (rd + glob + rd + ll + [9])[:ln]
             b = v[:3] + [ln] + nh + v[4 + v[3]:]
             out.append(with_raw(raw_tlv(fl, code, len(b), b, ext or len(b) > 255)))
         return out
@@ -190,6 +203,11 @@ def judge(c, verdict, rib_after, drops_discard):
             vpn = safi == 128
             other_afi = (afi == 2 and ln in ((12,) if vpn else (4,))) or \
                         (afi == 1 and (afi, safi) not in c['sess'].extnh and ln in ((24,) if vpn else (16, 32)))
+            if vpn and ln == 40 and (afi == 2 or (afi, safi) in c['sess'].extnh):
+                # Spec_Wire's table does not list it; Family.size does, on purpose (RD + global + link-local, the form
+                # ExaBGP wrote itself before RFC 4659's 48): the hypothesis nh40_tolerated of C08_rfc7606_mp_vpn_partial
+                TOLERATED['vpn-nexthop-40'] = TOLERATED.get('vpn-nexthop-40', 0) + 1
+                return None
             detail = f'MP_REACH_NLRI {afi}/{safi} with next hop length {ln} on session {c["sess"].key}: ' + r[1]
             if c['sess'].extnh and other_afi:
                 # a length that is legal for the same SAFI under the other AFI, or for an IPv4 family the RFC 8950
@@ -401,12 +419,13 @@ def check(tier, seed):
     run.coverage.update({
         'evaluations': len(cases),
         'distinct_nontrivial': len({bytes(c['body']) for c in cases}),
-        'rule': f'{len(codes)} registered attribute codes (T5) x {bases} well-formed bases x 6 sessions (asn4 x ADD-PATH, two with RFC 8950 extended next hop) x 10 fault kinds (incl. every MP_REACH next hop length 0..33) '
+        'rule': f'{len(codes)} registered attribute codes (T5) x {bases} well-formed bases x 6 sessions (asn4 x ADD-PATH, two with RFC 8950 extended next hop) x 10 fault kinds (incl. every MP_REACH next hop length 0..33, 0..49 for mpls-vpn routes, and a non-zero RD in front of a VPN next hop) '
                 f'(several variants each); bases mix IPv4 NLRI and MP_REACH/MP_UNREACH over the 8 IP families; non-trivial = distinct body',
         'fault_outcome_histogram': {f'{k[0]} -> {k[1]}': v for k, v in sorted(dist.items())},
         'verdict_histogram': dict(vdist),
         'codes': codes,
         'read_message_drops_discard': drops,
+        'tolerated_forms_seen': dict(TOLERATED),
         'exhaustive': False,
     })
     for c in cases[:3]:
